@@ -224,6 +224,9 @@ func c12o1(c *core.Ctx) {
 		}
 	}
 	sort.Strings(mapFields)
+	if n == 0 {
+		c.OK("C12/O1", "map iteration", "", "no iteration over a map anywhere in the packages (the positive control O5 shows the rule is alive)")
+	}
 	c.Info("C12/O1", "map-typed fields", "", strings.Join(mapFields, ", ")+fmt.Sprintf(" (%d map ranges found)", n))
 }
 
